@@ -5,6 +5,9 @@ mod util;
 
 #[cfg(feature = "rq-std")]
 mod c16;
+mod net;
+mod netcheck;
+mod sim;
 
 use util::Ctx;
 
@@ -35,11 +38,17 @@ fn main() {
             match doc["engine"].as_str().unwrap_or("") {
                 #[cfg(feature = "rq-std")]
                 "matrix" => c16::replay(&ctx, &doc),
+                "net" => netcheck::replay(&ctx, &doc),
                 e => {
                     eprintln!("HARNESS-ERROR: unknown engine {e}");
                     2
                 }
             }
+        }
+        "prof" => {
+            let p = match args[2].as_str() { "C08" => sim::Profile::C08, "C18" => sim::Profile::C18, "C07" => sim::Profile::C07, _ => sim::Profile::C01 };
+            netcheck::prof(p, args.get(3).and_then(|s| s.parse().ok()).unwrap_or(300), util::DEFAULT_SEED);
+            0
         }
         prop => {
             let ctx = Ctx::from_env(prop, &args[2]);
@@ -47,6 +56,9 @@ fn main() {
             match prop {
                 #[cfg(feature = "rq-std")]
                 "C16" => c16::run(&ctx),
+                "C01" => netcheck::run(&ctx, sim::Profile::C01),
+                "C08" => netcheck::run(&ctx, sim::Profile::C08),
+                "C18" => netcheck::run(&ctx, sim::Profile::C18),
                 _ => usage(),
             }
         }
